@@ -2,7 +2,7 @@
 exhaustive delete (C10) and extend-with-identity-map (C11) on tiny structures."""
 import sys, itertools, time, io, contextlib, copy
 import numpy as np
-sys.path.insert(0, '/repo')
+import os; sys.path.insert(0, os.environ.get('MOFUN_VERIF_REPO', '/repo'))
 from mofun import Atoms
 KINDS = ['bond', 'angle', 'dihedral', 'improper']
 ATTR = {'bond': 'bonds', 'angle': 'angles', 'dihedral': 'dihedrals', 'improper': 'impropers'}
@@ -41,11 +41,12 @@ class Ref:
     """atoms: list of dict; terms[k]: list of (uids, coeff, extras)"""
     def __init__(self, atoms, terms): self.atoms = atoms; self.terms = terms
     @classmethod
-    def of(cls, a, uid0=0):
+    def of(cls, a, uid0=0, origin=None):
+        origin = uid0 if origin is None else origin
         at, te = view(a)
         atoms = [dict(uid=uid0 + i, rec=r) for i, r in enumerate(at)]
         # table-less type ids become (origin, id) tokens: only their equality pattern is meaningful
-        tok = lambda co: co if not co.startswith('#') else '#%d:%s' % (uid0, co[1:])
+        tok = lambda co: co if not co.startswith('#') else '#%s:%s' % (origin, co[1:])
         terms = {k: [(tuple(uid0 + x for x in tup), tok(co), ex) for tup, co, ex in v] for k, v in te.items()}
         return cls(atoms, terms)
     def view(self):
